@@ -167,7 +167,7 @@ def replay(path):
     elif w["kind"] == "reader":
         hx = core.build_hx("std")
         inp = {"bytes": w["bytes"], "script": w["script"], "between": w.get("between", []), "tag": "replay",
-               "prefix": w.get("prefix", 0), "chain": w.get("chain", 0), "base": w.get("base", [0, 0]), "fail_seek": w.get("fail_seek", 0)}
+               "prefix": w.get("prefix", 0), **({"prefix_bytes": w["prefix_bytes"]} if w.get("prefix_bytes") else {}), "chain": w.get("chain", 0), "base": w.get("base", [0, 0]), "fail_seek": w.get("fail_seek", 0)}
         events = reader_checks.hx_reader(hx, [inp])
         verdicts, st, tr = core.validate_events("Trace_Reader", events, "replay", shards=1)
         for v in verdicts:
